@@ -324,4 +324,53 @@ class Inliner(object):
         if not changed[0]:
             return node
         ast.fix_missing_locations(new)
+        _renumber(new)
         return new
+
+
+def _renumber(fnode):
+    """After inlining, statements carry the line numbers of the helpers they came from.  Rules order statements by ``lineno``,
+    so give every statement (and the expressions it owns) a virtual line number in source order of the expanded function;
+    the real line is kept in ``_orig_lineno`` for reports (see util.where)."""
+    counter = [getattr(fnode, 'lineno', 1)]
+
+    def own_exprs(st):
+        for name, val in ast.iter_fields(st):
+            vals = val if isinstance(val, list) else [val]
+            for v in vals:
+                if isinstance(v, ast.AST) and not isinstance(v, (ast.stmt, ast.ExceptHandler)):
+                    for x in ast.walk(v):
+                        yield x
+
+    def visit(st):
+        counter[0] += 1
+        line = counter[0]
+        if hasattr(st, 'lineno'):
+            st._orig_lineno = st.lineno
+        st.lineno = line
+        st.end_lineno = line
+        for x in own_exprs(st):
+            if hasattr(x, 'lineno'):
+                x._orig_lineno = x.lineno
+                x.lineno = line
+                x.end_lineno = line
+        for name, val in ast.iter_fields(st):
+            if isinstance(val, list):
+                for v in val:
+                    if isinstance(v, (ast.stmt, ast.ExceptHandler)):
+                        visit(v)
+        return line
+    for st in fnode.body:
+        visit(st)
+    # end_lineno of compound statements: the last line of their last child
+    def close(st):
+        last = st.lineno
+        for name, val in ast.iter_fields(st):
+            if isinstance(val, list):
+                for v in val:
+                    if isinstance(v, (ast.stmt, ast.ExceptHandler)):
+                        last = max(last, close(v))
+        st.end_lineno = last
+        return last
+    for st in fnode.body:
+        close(st)
